@@ -7,6 +7,7 @@ CONSTANTS
   Hosts = {"h1", "h2", "h3"}
   FirstHost = "h1"
   TimerStoppedOnClose = FALSE
-INVARIANTS SomeoneServes ExpectedExcludesUnlisted QuiescentConverged ExportInv
+  EventsBlockRefresh = FALSE
+INVARIANTS RefreshNotBlockedByEvents SomeoneServes ExpectedExcludesUnlisted QuiescentConverged ExportInv
 PROPERTY Settles
 CHECK_DEADLOCK FALSE
